@@ -330,24 +330,29 @@ def oracles_sync(op, S0, S1, out, hist, stats):
                               target_kind=target_kind(kind, name), pre_state=pres[(kind, f)]))
                 continue
             if rep[f] != (f in changed):
+                nk = len([1 for _k, _n, ff in iter_targets(op) if ff == f])
                 v.append(viol("C10", "R1-report-flag", op,
                               "report says %s for %s but its bytes %s" % ("modified" if rep[f] else "unchanged", f, "changed" if f in changed else "did not change"),
                               target_kind=target_kind(kind, name), pre_state=pres[(kind, f)],
-                              says="modified" if rep[f] else "unchanged", is_truth_file=is_truth_target(op, kind, f)))
+                              says="modified" if rep[f] else "unchanged", is_truth_file=is_truth_target(op, kind, f),
+                              file_named_under_kinds=nk if nk > 1 else None))
     unrecognised = 0
+    printed = {}
     for line in out.get("stdout", "").splitlines():
         parts = line.split("\t")
         if len(parts) == 2 and parts[0] in ("modified", "unchanged") and parts[1].startswith("<W>/"):
-            f = parts[1][4:]
-            says = parts[0] == "modified"
-            if says != (f in changed):
-                kn = [(k, n) for k, n, ff in iter_targets(op) if ff == f]
-                k0, n0 = kn[0] if kn else (op["truth"], "")
-                v.append(viol("C10", "R1-printed-flag", op, "stdout says %r for %s but its bytes %s" % (parts[0], f, "changed" if f in changed else "did not change"),
-                              target_kind=target_kind(k0, n0), pre_state=pres.get((k0, f)), says=parts[0],
-                              is_truth_file=is_truth_target(op, k0, f)))
+            # a file named under two kinds gets one line per kind: it counts as reported modified if any line says so
+            printed[parts[1][4:]] = printed.get(parts[1][4:], False) or parts[0] == "modified"
         elif line.strip():
             unrecognised += 1
+    for f, says in sorted(printed.items()):
+        if says != (f in changed):
+            kn = [(k, n) for k, n, ff in iter_targets(op) if ff == f]
+            k0, n0 = kn[0] if kn else (op["truth"], "")
+            word = "modified" if says else "unchanged"
+            v.append(viol("C10", "R1-printed-flag", op, "stdout says %r for %s but its bytes %s" % (word, f, "changed" if f in changed else "did not change"),
+                          target_kind=target_kind(k0, n0), pre_state=pres.get((k0, f)), says=word,
+                          is_truth_file=is_truth_target(op, k0, f)))
     stats["stdout_lines_unrecognised"] = stats.get("stdout_lines_unrecognised", 0) + unrecognised
 
     # ---- C10 R3: idempotence (same invocation as the previous op, nothing in between)
@@ -422,7 +427,10 @@ def oracles_sync(op, S0, S1, out, hist, stats):
                             v.append(viol("C09", "A2-default", op, "%s.%s default is %r, truth says %r" % (name, nme, a, b), dkind=dkind, **common))
                             break
             # A3 only where sync actually wrote the definition (F01: existing function-kind targets are never rewritten)
-            if before_bytes_differ(S0, S1, f):
+            b_tree0 = _tree(S0.get(f))
+            rb0 = resolver.resolve(b_tree0, path) if b_tree0 is not None else None
+            definition_written = rb0 is None or not isinstance(rb0["node"], NODE_TYPE[kind]) or resolver.norm_dump(rb0["node"]) != resolver.norm_dump(node)
+            if before_bytes_differ(S0, S1, f) and definition_written:
                 ftype = None
                 b_tree = _tree(S0.get(f))
                 if b_tree is not None and kind != "class":
@@ -441,7 +449,8 @@ def oracles_sync(op, S0, S1, out, hist, stats):
             t_before = _tree(before)
             if t_before is not None:
                 stats["c11_checked"] = stats.get("c11_checked", 0) + 1
-                v += c11_compare(op, f, path, kind, t_before, t_after, common, stats)
+                others = [n.split(".") for k, n, ff in iter_targets(op) if ff == f and (k, n) != (kind, name)]
+                v += c11_compare(op, f, path, kind, t_before, t_after, common, stats, also_named=others)
     return v
 
 
@@ -529,7 +538,8 @@ def c11_after_fault(op, S0, S1, SF, simF, stats):
         if t_after is None:
             v.append(viol("C11", "P-unparseable", op, "target %s does not parse after a failed sync (%s at %s)" % (f, simF.fired["kind"], simF.fired["event_kind"]), **common))
             continue
-        v += c11_compare(op, f, name.split("."), kind, t_before, t_after, common, stats)
+        others = [n.split(".") for k, n, ff in iter_targets(op) if ff == f and (k, n) != (kind, name)]
+        v += c11_compare(op, f, name.split("."), kind, t_before, t_after, common, stats, also_named=others)
     return v
 
 
@@ -537,8 +547,25 @@ def before_bytes_differ(S0, S1, f):
     return S0.get(f) != S1.get(f)
 
 
-def c11_compare(op, f, path, kind, t_before, t_after, common, stats):
+def _without(tree, paths):
+    """A copy of `tree` without the top-level statements at which the given (other) named definitions of the same
+    operation live: they may legitimately be replaced or added by the same sync."""
+    idx = set()
+    for p in paths:
+        r = resolver.resolve(tree, p)
+        if r is not None:
+            idx.add(r["chain"][0][1])
+    if not idx:
+        return tree
+    t = copy.copy(tree)
+    t.body = [s for i, s in enumerate(tree.body) if i not in idx]
+    return t
+
+
+def c11_compare(op, f, path, kind, t_before, t_after, common, stats, also_named=()):
     v = []
+    if also_named:
+        t_before, t_after = _without(t_before, also_named), _without(t_after, also_named)
     sb = resolver.surroundings(t_before, path)
     sa = resolver.surroundings(t_after, path)
     nb = len(sb["top"])
@@ -781,7 +808,7 @@ def _eval_top(data, name):
 
 
 # ---------------------------------------------------------------------- C20 under faults
-def oracles_fault(op, S0, S1, SF, outF, sim, stats):
+def oracles_fault(op, S0, S1, SF, outF, sim, stats, versions=None):
     v = []
     fired = sim.fired
     if fired is None:
@@ -810,6 +837,11 @@ def oracles_fault(op, S0, S1, SF, outF, sim, stats):
             stats.setdefault("c20_cells", {})
             stats["c20_cells"][cellbase] = stats["c20_cells"].get(cellbase, 0) + 1
         if c == a or c == b:
+            continue
+        if versions and c is not None and sha(c) in versions.get(f, ()):
+            # the file is written more than once by this operation (it is named under two kinds): a complete state the
+            # fault-free run passes through between two of its writes is "completely rewritten", too
+            stats["intermediate_complete_state_accepted"] = stats.get("intermediate_complete_state_accepted", 0) + 1
             continue
         if c is not None and b is None and f not in named:
             # a stray file the fault-free run does not leave behind: only tolerable after KILL, for files this very
@@ -892,6 +924,28 @@ def oracles_gen(op, S0, S1, out, stats):
     return v
 
 
+def apply_env(world, op):
+    """Environment actions of the simulated user: write/delete a file, or transform the file as it is now."""
+    if op["op"] == "env":
+        world.write(op["path"], op.get("text"))
+        return True
+    if op["op"] == "env_transform":
+        cur = world.snapshot().get(op["path"])
+        if cur is not None:
+            how = op["how"]
+            if how == "crlf":
+                cur = cur.replace(b"\r\n", b"\n").replace(b"\n", b"\r\n")
+            elif how == "lf":
+                cur = cur.replace(b"\r\n", b"\n")
+            elif how == "strip_trailing_newline":
+                cur = cur.rstrip(b"\r\n")
+            elif how == "append_blank_lines":
+                cur = cur + b"\n\n"
+            world.write(op["path"], cur)
+        return True
+    return False
+
+
 # ------------------------------------------------------------------------ executor
 def resolve_fault(fault, sim1):
     """Turn a relative fault address (frac / pick) into a concrete event or step index of the
@@ -943,6 +997,12 @@ def execute(scenario, want_trace=False):
             world.write(rel, text)
         for i, op in enumerate(scenario["ops"]):
             kind = op["op"]
+            if kind == "env_transform":
+                apply_env(world, op)
+                hist["prev"] = None
+                hist["quiet"] = {}
+                trace.append({"i": i, "op": "env_transform", "path": op["path"], "how": op["how"]})
+                continue
             if kind == "env":
                 world.write(op["path"], op.get("text"))
                 hist["prev"] = None
@@ -1003,7 +1063,7 @@ def execute(scenario, want_trace=False):
                     if outF["status"] == "killed" and _proc is not None:
                         _proc.restore_baseline()  # the user's process is dead; whatever comes next is a new one
                 SF = world.snapshot()
-                new += oracles_fault(op, S0, S1, SF, outF, simF, stats)
+                new += oracles_fault(op, S0, S1, SF, outF, simF, stats, versions=getattr(sim1, "versions", None))
                 if kind == "sync" and simF.fired is not None:
                     new += c11_after_fault(op, S0, S1, SF, simF, stats)
                 rec["fault"] = {"plan": fault, "fired": simF.fired, "status": outF["status"], "exc": outF.get("exc"),
@@ -1038,8 +1098,7 @@ def fault_free_trace(scenario, upto):
         for rel, text in sorted(scenario.get("files", {}).items()):
             world.write(rel, text)
         for i, op in enumerate(scenario["ops"][: upto + 1]):
-            if op["op"] == "env":
-                world.write(op["path"], op.get("text"))
+            if apply_env(world, op):
                 continue
             if i == upto:
                 out, sim = run_op(ns, world, knobs, op, record_steps=True)
@@ -1143,8 +1202,8 @@ def execute_enum(scenario, nsteps=24):
             world.write(rel, text)
         ops = scenario["ops"]
         for i, op in enumerate(ops[:-1]):
-            if op["op"] == "env":
-                world.write(op["path"], op.get("text"))
+            if apply_env(world, op):
+                pass
             elif is_cli_op(op):
                 run_op(ns, world, knobs, op, where="fork", fresh=True)
             else:
@@ -1163,7 +1222,7 @@ def execute_enum(scenario, nsteps=24):
             world.restore(S0)
             outF, simF = run_op(ns, world, knobs, op, fault=f, where="fork", fresh=cli)
             SF = world.snapshot()
-            new = oracles_fault(op, S0, S1, SF, outF, simF, stats)
+            new = oracles_fault(op, S0, S1, SF, outF, simF, stats, versions=getattr(sim1, "versions", None))
             if op["op"] == "sync" and simF.fired is not None:
                 new += c11_after_fault(op, S0, S1, SF, simF, stats)
             digests.append([f, simF.fired is not None, outF["status"], {(p if p in S0 or p in S1 else "<stray>"): sha(d) for p, d in sorted(SF.items())}])
@@ -1205,9 +1264,7 @@ def fidelity_case(scenario):
         for rel, text in sorted(scenario.get("files", {}).items()):
             world.write(rel, text)
         for op in scenario["ops"][:-1]:
-            if op["op"] == "env":
-                world.write(op["path"], op.get("text"))
-            else:
+            if not apply_env(world, op):
                 run_op(ns, world, knobs, op)
         op = scenario["ops"][-1]
         S0 = world.snapshot()
